@@ -335,6 +335,9 @@ def catalogue():
     ep("util.numpy_array_to_int", "util", [], lambda r: [["np", [int(c) for c in rbits(r, r.choice([1, 5, 15]))]]])
     ep("util.bitarray_to_numpy_array", "util", [], lambda r: [B(rbits(r, r.choice([0, 5, 15])))])
     ep("util.half_byte_to_bytes", "util", [], lambda r: [I(r.randrange(16)), I(r.choice([1, 2, 3]))])
+    from props.c19_model import add_model_entry_points
+
+    add_model_entry_points(ep, {"B": B, "BL": BL, "X": X, "XA": XA, "I": I, "S": S, "rbits": rbits, "rhex": rhex, "flip_hex": flip_hex})
     return C
 
 
@@ -619,6 +622,7 @@ def run(ctx):
     resp = parallel([{"op": "seq", "calls": calls, "probe": True} for _, calls in histories], ncpu)
     ctx.notes.append(f"{len(histories)} histories ({sum(len(c) for _, c in histories)} calls) in {time.time() - t0:.1f}s")
     bad_hist = []
+    state_changed = []
     for (label, calls), rr in zip(histories, resp):
         ctx.count(f"history:{label.split(':')[0]}")
         if "child_error" in rr:
@@ -635,20 +639,52 @@ def run(ctx):
         pr = rr.get("probe") or {}
         diff = sorted(k for k in set(pr) | set(pristine) if pr.get(k) != pristine.get(k))
         if diff:
-            fail("shared-state-changed", {"history": calls[-60:], "objects": diff[:10]}, f"shared object(s) differ from their initial value after the history: {diff[:3]}", expected={k: pristine.get(k) for k in diff[:3]}, actual={k: pr.get(k) for k in diff[:3]})
+            # the invariant of the Lean model ("caches / shared defaults / tables keep their initial value") does not hold on
+            # the code: a correspondence difference.  Whether a RESULT depends on it is searched for below.
+            ctx.count("inv-broken:histories")
+            state_changed.append((label, calls, diff))
+            if len(ctx.disagreements) < 20:
+                ctx.disagreements.append({"component": "shared-state-invariant", "line": f"after history {label} of {len(calls)} call(s) ending with {calls[-1]['ep']}",
+                                          "impl": {k: pr.get(k) for k in diff[:4]}, "model": {k: pristine.get(k) for k in diff[:4]}, "history": calls[-12:]})
+
+    # directed search: a history that changed shared state, followed by every pool call
+    if state_changed:
+        seen_obj = set()
+        jobs = []
+        for label, calls, diff in sorted(state_changed, key=lambda x: len(x[1])):
+            if diff[0] in seen_obj or len(seen_obj) >= 4:
+                continue
+            seen_obj.add(diff[0])
+            pre = calls[-30:]
+            for i in range(0, len(ulist), 120):
+                jobs.append((label, pre, ulist[i : i + 120]))
+        rs = parallel([{"op": "seq", "calls": pre + tail, "probe": False} for _, pre, tail in jobs], ncpu)
+        for (label, pre, tail), rr in zip(jobs, rs):
+            if "r" not in rr:
+                continue
+            for j, (s, res) in enumerate(zip(tail, rr["r"][len(pre):])):
+                ctx.case(("directed", key_of(s), key_of(pre[-1])))
+                if res[0] != ref[key_of(s)][0]:
+                    bad_hist.append(("directed:" + label, pre + tail[: j + 1], len(pre) + j, ref[key_of(s)][0], res[0]))
+                    break
+        ctx.count("directed-search-histories", len(jobs))
 
     # shrink the first few history-dependent results to a short reproducing history
     for label, calls, i, exp, act in bad_hist[:6]:
         best = calls[: i + 1]
-        cands = [calls[max(0, i - k) : i + 1] for k in (1, 2, 4, 8, 16) if k < i] + [[c, calls[i]] for c in calls[max(0, i - 40) : i]]
+        cands = [[calls[i]]] + [calls[max(0, i - k) : i + 1] for k in (1, 2, 4, 8, 16) if k < i] + [[c, calls[i]] for c in calls[max(0, i - 40) : i]]
         if cands:
             rs = parallel([{"op": "seq", "calls": c, "probe": False} for c in cands], ncpu)
             for c, rr in sorted(zip(cands, rs), key=lambda x: len(x[0])):
                 if "r" in rr and rr["r"][-1][0] != exp:
                     best = c
                     break
-        fail("history-dependent-result", {"history": best, "index": len(best) - 1, "found_in": label},
-             f"{calls[i]['ep']} answers differently after {len(best) - 1} earlier call(s) than when called first in a fresh interpreter", expected=exp, actual=act)
+        if len(best) == 1:
+            fail("nondeterministic-result", {"history": best, "index": 0, "found_in": label},
+                 f"{calls[i]['ep']} answers differently in two fresh interpreter states (time, randomness or unspecified memory reaches the result)", expected=exp, actual=act)
+        else:
+            fail("history-dependent-result", {"history": best, "index": len(best) - 1, "found_in": label},
+                 f"{calls[i]['ep']} answers differently after {len(best) - 1} earlier call(s) than when called first in a fresh interpreter", expected=exp, actual=act)
     for _ in bad_hist[6:]:
         ctx.count("fail:history-dependent-result")
 
